@@ -483,6 +483,208 @@ fn dict_equal(x: &[(Vec<u8>, Val)], y: &[(Vec<u8>, Val)], skip_length: bool) -> 
     x.len() == y.len() && x.iter().all(|(k, v)| y.iter().any(|(k2, v2)| k == k2 && vals_equal(v, v2)))
 }
 
+// ------------------------------------------------------------------------------------------------
+// the same kind of history through the File interface (File as Updater, save_to a path): the glue a user actually calls
+
+const FILE_OPS: &[&str] = &["stop", "save_to", "create:dictA", "update:direct3<-dictB", "update:compressed5<-dictA", "promise+fulfil<-name", "update:last-created<-int"];
+
+fn scratch_path() -> std::path::PathBuf {
+    let dir = std::env::var("CARGO_TARGET_DIR").map(std::path::PathBuf::from).unwrap_or_else(|_| std::env::current_exe().unwrap().parent().unwrap().to_path_buf()).join("scratch");
+    let _ = std::fs::create_dir_all(&dir);
+    dir.join(format!("c09-{}-{:?}.pdf", std::process::id(), std::thread::current().id()).replace(['(', ')'], ""))
+}
+
+macro_rules! run_file_history {
+    ($ch:expr, $file:expr, $base_bytes:expr, $descr:expr) => {{
+        let ch: &mut Chooser = $ch;
+        let mut file = $file;
+        let base_bytes: Vec<u8> = $base_bytes;
+        let mut verdict: std::result::Result<(), (String, String)> = Ok(());
+        let path = scratch_path();
+        'run: {
+            let mut model: BTreeMap<u64, Val> = BTreeMap::new();
+            let base_doc = crate::refread::RefDoc::open(&base_bytes).expect("base readable");
+            for nr in [3u64, 4, 5, 6, 7, 9] {
+                match base_doc.get(nr) {
+                    Ok(Val::Null) => {}
+                    Ok(v) => {
+                        model.insert(nr, v);
+                    }
+                    Err(e) => panic!("base object {}: {}", nr, e),
+                }
+            }
+            let mut written: Vec<u64> = vec![];
+            let mut last_created: Option<PlainRef> = None;
+            let mut prev_bytes = base_bytes.clone();
+            let mut dirty = false;
+            for step in 0..4 {
+                // the last step is always a save, so that every history is checked on disk
+                let oi = if step == 3 { 1 } else { ch.pick_free_named("file-op#", FILE_OPS) };
+                $descr.push(FILE_OPS[oi]);
+                match oi {
+                    0 => {
+                        if !dirty {
+                            break 'run;
+                        }
+                        continue;
+                    }
+                    1 => {
+                        if let Err(e) = file.save_to(&path) {
+                            verdict = Err((format!("save-error:{}", err_variant(&e)), format!("history {:?}: {}", $descr, truncate(&format!("{}", err_root(&e)), 160))));
+                            break 'run;
+                        }
+                        dirty = false;
+                        let bytes = std::fs::read(&path).unwrap_or_default();
+                        if !bytes.starts_with(&prev_bytes) {
+                            verdict = Err(("previous-revision-modified".into(), format!("after {:?}: the previous {} bytes are not a prefix of the file written by save_to", $descr, prev_bytes.len())));
+                            break 'run;
+                        }
+                        match crate::refread::RefDoc::open(&bytes) {
+                            Err(m) => {
+                                verdict = Err(("saved-file-structure".into(), format!("after {:?}: {}", $descr, m)));
+                                break 'run;
+                            }
+                            Ok(doc) => {
+                                let problems = doc.validate(false);
+                                if !problems.is_empty() {
+                                    verdict = Err(("saved-file-invalid".into(), format!("after {:?}: {}", $descr, truncate(&problems.join("; "), 300))));
+                                    break 'run;
+                                }
+                            }
+                        }
+                        match FileOptions::uncached().load(bytes.clone()) {
+                            Err(e) => {
+                                verdict = Err((format!("reload-error:{}", err_variant(&e)), format!("after {:?}: {}", $descr, truncate(&format!("{}", err_root(&e)), 160))));
+                                break 'run;
+                            }
+                            Ok(re) => {
+                                let res = re.resolver();
+                                for (&nr, want) in &model {
+                                    if let Err(m) = check_ref(&res, PlainRef { id: nr, gen: 0 }, want, false) {
+                                        let kind = if written.contains(&nr) { "reload-written-object-wrong" } else { "reload-untouched-object-changed" };
+                                        verdict = Err((kind.into(), format!("after {:?}: {}", $descr, m)));
+                                        break 'run;
+                                    }
+                                }
+                                if re.num_pages() != file.num_pages() {
+                                    verdict = Err(("reload-page-count".into(), format!("{} vs {}", re.num_pages(), file.num_pages())));
+                                    break 'run;
+                                }
+                            }
+                        }
+                        prev_bytes = bytes;
+                    }
+                    2 => match file.create(value_prim(2)) {
+                        Ok(rc) => {
+                            let r = rc.get_ref().get_inner();
+                            model.insert(r.id, value(2));
+                            written.push(r.id);
+                            last_created = Some(r);
+                            dirty = true;
+                        }
+                        Err(e) => {
+                            verdict = Err((format!("create-error:{}", err_variant(&e)), String::new()));
+                            break 'run;
+                        }
+                    },
+                    3 | 4 | 6 => {
+                        let (r, v) = match oi {
+                            3 => (PlainRef { id: 3, gen: 0 }, 3),
+                            4 => (PlainRef { id: 5, gen: 0 }, 2),
+                            _ => match last_created {
+                                Some(r) => (r, 0),
+                                None => break 'run,
+                            },
+                        };
+                        // (the merge of two dictionary updates of one object is a recorded finding of the storage-level engine)
+                        if matches!(model.get(&r.id), Some(Val::Dict(_))) && written.contains(&r.id) && v != 0 {
+                            break 'run;
+                        }
+                        match file.update(r, value_prim(v)) {
+                            Ok(_) => {
+                                model.insert(r.id, value(v));
+                                written.push(r.id);
+                                dirty = true;
+                            }
+                            Err(e) => {
+                                verdict = Err((format!("update-error:{}", err_variant(&e)), String::new()));
+                                break 'run;
+                            }
+                        }
+                    }
+                    _ => {
+                        let pr = file.promise::<Primitive>();
+                        let r = pr.get_inner();
+                        match file.fulfill(pr, value_prim(1)) {
+                            Ok(_) => {
+                                model.insert(r.id, value(1));
+                                written.push(r.id);
+                                dirty = true;
+                            }
+                            Err(e) => {
+                                verdict = Err((format!("fulfil-error:{}", err_variant(&e)), String::new()));
+                                break 'run;
+                            }
+                        }
+                    }
+                }
+                // reads through the open File reflect every write
+                let res = file.resolver();
+                for (&nr, want) in &model {
+                    if let Err(m) = check_ref(&res, PlainRef { id: nr, gen: 0 }, want, false) {
+                        verdict = Err(("open-document-read-wrong".into(), format!("after {:?}: {}", $descr, m)));
+                        break 'run;
+                    }
+                }
+            }
+        }
+        let _ = std::fs::remove_file(&path);
+        verdict
+    }};
+}
+
+pub fn file_case(ch: &mut Chooser, t: &mut Tally) {
+    let base = ch.pick_free_named("base", BASES);
+    let cached = ch.pick_free_named("cache", CACHE);
+    let bytes = base_file(base);
+    let mut descr: Vec<&'static str> = vec![];
+    let res = catch(|| {
+        if cached == 1 {
+            match FileOptions::cached().load(bytes.clone()) {
+                Ok(f) => run_file_history!(ch, f, bytes.clone(), descr),
+                Err(e) => Err((format!("base-open-error:{}", err_variant(&e)), String::new())),
+            }
+        } else {
+            match FileOptions::uncached().load(bytes.clone()) {
+                Ok(f) => run_file_history!(ch, f, bytes.clone(), descr),
+                Err(e) => Err((format!("base-open-error:{}", err_variant(&e)), String::new())),
+            }
+        }
+    });
+    t.evaluations += 1;
+    t.distinct.insert(fnv(format!("file{}{}{:?}", base, cached, descr).as_bytes()));
+    let verdict = match res {
+        Err((loc, msg)) => Err((panic_kind(&loc), format!("history {:?}: {}", descr, msg))),
+        Ok(v) => v,
+    };
+    match verdict {
+        Ok(()) => t.outcome("ok"),
+        Err((kind, detail)) => {
+            t.outcome(&kind);
+            let mut devs: Vec<String> = descr.iter().filter(|d| **d != "stop").map(|d| format!("op={}", d)).collect();
+            devs.sort();
+            devs.dedup();
+            if base != 0 {
+                devs.push(format!("base={}", BASES[base]));
+            }
+            if cached == 1 {
+                devs.push("cache=cached".into());
+            }
+            t.fail("c09.file", &kind, devs, format!("base {} {}: {}", BASES[base], CACHE[cached], detail), ch.replay_value("c09.file"));
+        }
+    }
+}
+
 pub fn history_case(ch: &mut Chooser, t: &mut Tally) {
     let base = ch.pick_free_named("base", BASES);
     let cached = ch.pick_free_named("cache", CACHE);
@@ -520,6 +722,7 @@ pub fn run(tier: Tier, _seed: u64, tally: &mut Tally) -> CheckMeta {
     let depth = if tier.thorough() { 5 } else { 4 };
     DEPTH.store(depth, Ordering::Relaxed);
     explore("c09.history", Limits::new(0).wall(if tier.thorough() { 3000 } else { 600 }), tally, history_case);
+    explore("c09.file", Limits::new(0), tally, file_case);
     tally.validated = tally.evaluations;
     tally.sample(json!({"base": "xref-stream+objstm", "cache": "cached", "history": ["get:compressed5", "update:compressed5<-dictA", "save"]}));
     tally.sample(json!({"base": "junk-before-header", "history": ["create:int", "save", "update:last-created<-dictB", "save"]}));
@@ -527,7 +730,7 @@ pub fn run(tier: Tier, _seed: u64, tally: &mut Tally) -> CheckMeta {
     CheckMeta {
         prop: "C09",
         level: "model_checking",
-        rule: format!("every history of <= {} operations over a {}-symbol alphabet (create of 4 value kinds and of a typed value whose conversion creates a second object, update of a direct / compressed / stream / created / fulfilled object, of object 0 and of an object number that is free in one base and in use in the others (a refused update must leave the document as it was), promise, fulfil, typed reads, save, an update with an unserialisable value and its repair) x 4 base files (classic, xref stream + object stream, junk before the header, two revisions the second of which frees an object) x {{uncached, SyncCache}} executed on a real Storage; after every step every tracked reference is read (resolve and typed get) and compared with a map reference model; after every successful save the previous bytes must be a prefix, the independent structural reader must accept the output and find the model values, and a reload must resolve written references to the last value and untouched objects (incl. stream data) to their old value; a save with an unserialisable object must fail and a later save succeed. Ill-formed histories (fulfil without promise, save with an open promise) are skipped.", depth, OPS.len() - 1),
+        rule: format!("every history of <= {} operations over a {}-symbol alphabet (create of 4 value kinds and of a typed value whose conversion creates a second object, update of a direct / compressed / stream / created / fulfilled object, of object 0 and of an object number that is free in one base and in use in the others (a refused update must leave the document as it was), promise, fulfil, typed reads, save, an update with an unserialisable value and its repair) x 4 base files (classic, xref stream + object stream, junk before the header, two revisions the second of which frees an object) x {{uncached, SyncCache}} executed on a real Storage; after every step every tracked reference is read (resolve and typed get) and compared with a map reference model; after every successful save the previous bytes must be a prefix, the independent structural reader must accept the output and find the model values, and a reload must resolve written references to the last value and untouched objects (incl. stream data) to their old value; a save with an unserialisable object must fail and a later save succeed. Ill-formed histories (fulfil without promise, save with an open promise) are skipped. The same through the File interface (File as Updater, save_to a path, reload from the path): all histories of <= 3 operations over 6 operations followed by a save, same bases and caches.", depth, OPS.len() - 1),
         assumptions: vec!["a promise that is never fulfilled before save is outside the property".into()],
         exhaustive: true,
         bounds: json!({"depth": depth}),
@@ -537,5 +740,9 @@ pub fn run(tier: Tier, _seed: u64, tally: &mut Tally) -> CheckMeta {
 pub fn replay(case: &Value, tally: &mut Tally) {
     let picks: Vec<u32> = case["picks"].as_array().map(|a| a.iter().map(|x| x.as_u64().unwrap() as u32).collect()).unwrap_or_default();
     DEPTH.store(case["depth"].as_u64().unwrap_or(3) as usize, Ordering::Relaxed);
-    run_one(&picks, tally, history_case);
+    if case["engine"].as_str() == Some("c09.file") {
+        run_one(&picks, tally, file_case);
+    } else {
+        run_one(&picks, tally, history_case);
+    }
 }
